@@ -7,7 +7,7 @@ META = {
               "varintAdaptiveAnalyze truthful for n <= 3 symbolic elements; (c) each of the six encodings forced on n = 2 (quick) / "
               "n <= 3 (thorough) symbolic elements in its documented domain: header byte == encoding == meta, decode == input; (d) "
               "automatic Encode -> Decode end to end on n = 2, split by selected encoding (thorough: also n = 3 for tagged/delta/for)",
-    "outside": "the BITMAP arm executed end to end through varintAdaptiveEncodeWith/Decode (symbolic execution through varintBitmapCreate/Add/Encode/Decode/ToArray inside the adaptive dispatch did not finish in 20 minutes even at the scaled container constants): for BITMAP the claim is the selection-vs-domain query (a) plus C08, which decides the bitmap container, its serialisation and ToArray on their own; payloads above 1 MiB (varintAdaptiveDecode passes a fixed 1 MiB length to the dict/bitmap decoders - a suspect from "
+    "outside": "the DICT arm through the adaptive dispatch (the SAT instance exceeds 36 GB; the dictionary codec itself is decided in C02/C03/C13/C14/C18, and automatic selection reaches DICT only for n >= 7); the BITMAP arm executed end to end through varintAdaptiveEncodeWith/Decode (symbolic execution through varintBitmapCreate/Add/Encode/Decode/ToArray inside the adaptive dispatch did not finish in 20 minutes even at the scaled container constants): for BITMAP the claim is the selection-vs-domain query (a) plus C08, which decides the bitmap container, its serialisation and ToArray on their own; payloads above 1 MiB (varintAdaptiveDecode passes a fixed 1 MiB length to the dict/bitmap decoders - a suspect from "
                "reading, needs > 3*10^5 elements); arrays of more than 3 jointly symbolic elements through the real encoders",
     "assumptions": ["size-dispatch allocator, insertion-sort qsort stub, byte-loop mem* stubs",
                     "documented domain of forced BITMAP: strictly increasing values below 65536"],
@@ -16,13 +16,13 @@ META = {
 
 def queries(tier):
     q = tier == "quick"
-    qs = [Query("select-vs-domain", "adaptive/select.c", ["varintAdaptive.c"], checks="none", timeout=600)]
+    qs = [Query("select-vs-domain", "adaptive/select.c", ["varintAdaptive.c"], checks="none", timeout=600, native_units=U)]
     for n in ((2,) if q else (1, 2, 3)):
         qs.append(aq("analyze-truth-n%d" % n, {"N": n, "MODE": 2, "PROP": 6}, weight=2))
-    for f in (0, 1, 2, 3, 5):   # BITMAP arm (4): see META "outside"
+    for f in (0, 1, 2, 5):   # BITMAP (4) and DICT (3) arms: see META "outside"
         for n in ((2,) if q else (1, 2, 3)):
             qs.append(aq("forced-%s-n%d" % (NAMES[f], n), {"N": n, "MODE": 0, "FORCE": f, "PROP": 6}))
-    for sel in (0, 1, 2, 3, 5):
+    for sel in (0, 1, 2, 5):
         for n in ((2,) if q else (2, 3)):
             qs.append(aq("auto-n%d-selects-%s" % (n, NAMES[sel]), {"N": n, "MODE": 1, "SEL": sel, "PROP": 6}, to=2400, weight=9))
     if not q:
